@@ -87,7 +87,7 @@ func checkSrc(src string, sem bool) verdict {
 	d := diffAST(ast, ast2)
 	v.CmDiff = d.cmDiffs
 	if d.path != "" {
-		v.Class, v.Detail = "diff:"+d.path, d.detail
+		v.Class, v.Detail = "diff:"+classOf(d.path), d.detail
 		return v
 	}
 	if sem && len(ast.Includes) == 0 {
@@ -105,9 +105,8 @@ func checkSrc(src string, sem bool) verdict {
 				v.Class, v.Detail = "reparse-error", "text dumped after CheckAll/ResolveSymbols is rejected by the parser: "+firstLine(err.Error())
 				return v
 			}
-			ref, _ := safeParse("a.thrift", src)
-			if d := diffAST(ref, a4); d.path != "" {
-				v.Class, v.Detail = "diff:"+d.path, "(dump after resolve) "+d.detail
+			if d := diffAST(a3, a4); d.path != "" {
+				v.Class, v.Detail = "diff:"+classOf(d.path), "(dump after CheckAll/ResolveSymbols) "+d.detail
 				return v
 			}
 			if !accepted(a4) {
@@ -119,6 +118,44 @@ func checkSrc(src string, sem bool) verdict {
 		}
 	}
 	return v
+}
+
+// classOf maps the path of the first difference to a failure class (container prefixes and type nesting dropped).
+func classOf(path string) string {
+	seg := strings.Split(path, ".")
+	last := seg[len(seg)-1]
+	has := func(s string) bool {
+		for _, x := range seg {
+			if x == s {
+				return true
+			}
+		}
+		return false
+	}
+	switch {
+	case last == "CppType":
+		return "Type.CppType"
+	case (has("Type") || has("FunctionType")) && has("Annotations"):
+		return "Type.Annotations." + last
+	case has("Arguments"):
+		return "Arguments." + strings.Join(seg[indexOf(seg, "Arguments")+1:], ".")
+	case has("Throws"):
+		return "Throws." + strings.Join(seg[indexOf(seg, "Throws")+1:], ".")
+	case has("Value") && seg[0] == "Constants" && !has("Annotations"), has("Default"):
+		return "ConstValue." + last
+	case has("Annotations"):
+		return "Annotations." + last
+	}
+	return path
+}
+
+func indexOf(a []string, s string) int {
+	for i, x := range a {
+		if x == s {
+			return i
+		}
+	}
+	return -1
 }
 
 func firstLine(s string) string {
@@ -316,7 +353,11 @@ func (r *runner) report(p Prog, v verdict, sem bool) {
 	}
 	// one shrink per failure class and run is enough to name the class; further programs of the same class
 	// are shrunk too (up to a budget) because they may minimise to different inputs.
-	if r.out.Stats["shrunk:"+v.Class] >= 12 {
+	lim := 2
+	if v.Class == "reparse-error" || strings.HasPrefix(v.Class, "diff:ConstValue") {
+		lim = 8
+	}
+	if r.out.Stats["shrunk:"+v.Class] >= lim {
 		return
 	}
 	r.out.Count("shrunk:" + v.Class)
@@ -801,7 +842,7 @@ func (r *runner) trimmerProject(trimmer, dir string, idx int) error {
 		if err != nil {
 			fail(rel, "reparse-error", firstLine(err.Error()), string(wb))
 		} else if d := diffAST(a, back); d.path != "" {
-			fail(rel, "diff:"+d.path, d.detail, string(wb))
+			fail(rel, "diff:"+classOf(d.path), d.detail, string(wb))
 		}
 		for _, inc := range a.Includes {
 			walk(inc.Reference)
